@@ -40,7 +40,7 @@ ASSUMPTIONS = [
     "theorem hypotheses: D.WF (distinct nodes/edges, edge endpoints are nodes, every node tagged: what building an nx.DiGraph gives), D.Acyclic, and for the names only `Function.Injective fresh` (u_i distinct) and `forall n, n < prime n` (a primed name is a longer string); bidirected self-loops are excluded from the round trip (not an ADMG)",
     "networkx topological_sort on a graph mutated during iteration is modelled as the order of the input graph (argued in Model/Latent.lean); correspondence compares results as sets, names invented for new latents are compared by their child sets",
     "in-place mutation: simplify_latent_dag mutates its argument and leaves it half-rewritten when it raises; the model is pure and returns the final graph (runtime clause, not claimed)",
-    "non-Variable nodes (_assert_variable_nodes TypeError) are outside the model (names are naturals)",
+    "non-Variable nodes (_assert_variable_nodes TypeError), counterfactual graphs (raise_on_counterfactual) and non-default tag / prefix / start / suffix arguments are outside the model",
 ]
 EXHAUSTIVE = {"quick": False, "thorough": False}
 LEANCHECK_MODULES = ["Y0.Model.Latent", "Y0.Props.C16"]
@@ -775,7 +775,7 @@ def finding_key(case, res):
 
 
 MANIFEST = {
-    "text": ("Proof: 19 Lean theorems about the executable model of graph.py (_latent_dag / to_latent_variable_dag / "
+    "text": ("Proof: 21 Lean theorems about the executable model of graph.py (_latent_dag / to_latent_variable_dag / "
              "from_latent_variable_dag) and simplify_latent.py (four rules, simplify_latent_dag, evans_simplify), for ALL "
              "well-formed inputs, no size bound. Round trip: from(to(G)) == G for every mixed graph incl. edge-less nodes "
              "and nodes already called u_i (roundtrip, toLV_is_projection). Simplification of any well-formed acyclic LV-DAG "
